@@ -439,10 +439,13 @@ func genericRun(r *hx.Run, rnd *hx.Rand, n int) {
 }
 
 // pepRanges: pkg/pep440/range.go — ParseRange and Range.Match against the
-// model, and the half-open statement on the implementation: a range written
-// ">=a,<b" matches exactly the versions v with a <= v < b.
+// model, and on the implementation: (1) a range written ">=a,<b" matches
+// exactly the versions v with a <= v < b; (2) a specifier built from known
+// operators matches v exactly when every part does, each operator meaning
+// what it says in terms of Compare ("~=V" being V <= v < U with U = V's
+// release without its last segment, the new last one incremented).
 func pepRanges(r *hx.Run, rnd *hx.Rand, n int) {
-	ops := []string{"==", "!=", "<=", ">=", "<", ">", "~=", ">=", "<", "", "===", "=", "~", "=>"}
+	ops := []string{"==", "!=", "<=", ">=", "<", ">", "~=", ">=", "<", "", "===", "=", "~", "=>", "==", "!="}
 	for i := 0; i < n && !r.Stop(); i++ {
 		f := newFamily(rnd)
 		// plain versions mostly: the epoch separator '!' is read as an operator character
@@ -451,30 +454,46 @@ func pepRanges(r *hx.Run, rnd *hx.Rand, n int) {
 			if rnd.Chance(4, 5) {
 				s = strings.NewReplacer("!", "", "~", "", "=", "", "<", "", ">", "", ",", "").Replace(s)
 			}
+			if rnd.Chance(1, 25) {
+				s += f.pick(".*", "*", ".*.*")
+			}
 			return s
 		}
 		sp := func() string { return f.pick("", "", "", " ", "  ", "\t") }
-		var spec string
-		a, b := ver(), ver()
+		type part struct{ op, ver string }
+		var parts []part
 		halfOpen := false
-		switch rnd.Intn(4) {
+		switch rnd.Intn(5) {
 		case 0:
-			spec = sp() + ">=" + sp() + a + sp() + "," + sp() + "<" + sp() + b + sp()
+			parts = []part{{">=", ver()}, {"<", ver()}}
 			halfOpen = true
 		case 1:
-			spec = ops[rnd.Intn(len(ops))] + sp() + a
+			parts = []part{{ops[rnd.Intn(len(ops))], ver()}}
 		case 2:
-			spec = ops[rnd.Intn(len(ops))] + a + "," + ops[rnd.Intn(len(ops))] + sp() + b
+			parts = []part{{ops[rnd.Intn(len(ops))], ver()}, {ops[rnd.Intn(len(ops))], ver()}}
+		case 3:
+			for k := 1 + rnd.Intn(4); k > 0; k-- {
+				parts = append(parts, part{ops[rnd.Intn(9)], ver()})
+			}
 		default:
-			spec = f.pick("~=", "~= ", "~=") + a
+			parts = []part{{"~=", ver()}}
 		}
+		var sb strings.Builder
+		for k, p := range parts {
+			if k != 0 {
+				sb.WriteString(sp() + "," + sp())
+			}
+			sb.WriteString(sp() + p.op + sp() + p.ver + sp())
+		}
+		spec := sb.String()
+		damaged := false
 		if rnd.Chance(1, 30) {
 			spec += f.pick(",", ",,", " ", ">")
-			halfOpen = false
+			halfOpen, damaged = false, true
 		}
 		vt := ver()
 		if rnd.Chance(1, 3) {
-			vt = f.mutate(a, "pep440")
+			vt = f.mutate(parts[0].ver, "pep440")
 		}
 		var rg pep440.Range
 		var pv pepV
@@ -504,6 +523,56 @@ func pepRanges(r *hx.Run, rnd *hx.Rand, n int) {
 				r.Fail("", fmt.Sprintf("pep440 range-membership spec=%s version=%s match=%s want=%v", q(spec), q(vt), out, want))
 			}
 		}
+		// the specifier's meaning, computed from the parts as generated
+		if damaged || (out != "true" && out != "false") {
+			continue
+		}
+		want, known := true, true
+		for _, p := range parts {
+			if strings.ContainsAny(p.ver, "~=!<>,") {
+				known = false // an operator character inside the version text moves the split
+				break
+			}
+			cv, _ := pepParse(p.ver)
+			if !cv.ok {
+				known = false
+				break
+			}
+			c := pv.v.Compare(&cv.v)
+			switch p.op {
+			case "==":
+				want = want && c == 0
+			case "!=":
+				want = want && c != 0
+			case "<=":
+				want = want && c <= 0
+			case ">=":
+				want = want && c >= 0
+			case "<":
+				want = want && c < 0
+			case ">":
+				want = want && c > 0
+			case "~=":
+				rel := cv.v.Release
+				if len(rel) < 2 {
+					known = false
+					break
+				}
+				up := pep440.Version{Epoch: cv.v.Epoch, Release: append([]int(nil), rel[:len(rel)-1]...)}
+				up.Release[len(up.Release)-1]++
+				want = want && c >= 0 && pv.v.Compare(&up) < 0
+			default:
+				known = false
+			}
+		}
+		if !known {
+			continue
+		}
+		r.Case("pep440 specifier "+q(spec)+" "+q(vt), true)
+		r.Count("pep440:specifier:" + strconv.FormatBool(want))
+		if out != strconv.FormatBool(want) {
+			r.Fail("", fmt.Sprintf("pep440 specifier spec=%s version=%s match=%s, the operators say %v", q(spec), q(vt), out, want))
+		}
 	}
 	// the repaired panic: "~=" with one release segment
 	out := hx.Guard(func() string {
@@ -515,6 +584,16 @@ func pepRanges(r *hx.Run, rnd *hx.Rand, n int) {
 	r.Op("peprange "+hexs("~=1")+" "+hexs("1"), out, false)
 	if out != "err" {
 		r.Fail("", "pep440 ParseRange(\"~=1\") = "+out+", want an error")
+	}
+	// arbitrary equality is rejected
+	for _, s := range []string{"===1.0", "=== 1.0", "===foo1"} {
+		out := hx.Guard(func() string {
+			if _, err := pep440.ParseRange(s); err != nil {
+				return "err"
+			}
+			return "ok"
+		})
+		r.Op("peprange "+hexs(s)+" "+hexs("1.0"), out, false)
 	}
 }
 
